@@ -34,8 +34,8 @@ CHECKS["C17"] = {
     "pkg": "c17",
     "level": "exploration",
     "technique": "exhaustive interleaving enumeration at method granularity (harness plays the scheduler) against a specification model + rapid-sampled larger configurations + goroutine stress of the real scheduler",
-    "level_text": "For every configuration of <=2 txns x <=3 keys (quick) and additionally 3 txns x <=2 keys x all 90 timestamp orders x {1,2} slots (thorough, complete) every interleaving of arrive/release/wake is executed on the real Latches and compared with a FIFO-per-key specification after every step; configurations up to the property's full bound (4 txns x 3 keys) are sampled by rapid with all their interleavings. The real scheduler goroutine is stressed with up to 15 goroutines. Interleavings below method granularity (inside one slot mutex) are reached by the stress part only.",
-    "level_note": "Trusted: the hook internal/latch/verif_export.go only forwards to genLock/acquire/release; timestamps stay within one physical millisecond so the 2-minute recycler (which forgets by design) is out of scope.",
+    "level_text": "For every configuration of <=2 txns x <=3 keys (quick) and additionally 3 txns x <=2 keys x all 90 timestamp orders x {1,2} slots (thorough, complete) every interleaving of arrive/release/wake is executed on the real Latches and compared with a FIFO-per-key specification after every step; configurations up to the property's full bound (4 txns x 3 keys) are sampled by rapid with all their interleavings. Configurations that reach the latch's memory bound (1 slot, 6-9 txns, 8 keys, timestamps two minutes apart) are walked along one drawn interleaving each (TestRecycling). The real scheduler goroutine is stressed with up to 15 goroutines. Interleavings below method granularity (inside one slot mutex) are reached by the stress part only.",
+    "level_note": "Trusted: the hook internal/latch/verif_export.go only forwards to genLock/acquire/release; in the enumerated and sampled configurations timestamps stay within one physical millisecond, so the 2-minute recycler never acts there; TestRecycling covers it separately with TSO-scale timestamps and a model that may forget a max commit ts only where the recycler is allowed to.",
     "tests": [
         {"name": "TestEnumSmall", "quick": 1, "thorough": 1, "shards": 1},
         {"name": "TestEnum3", "quick": 1, "thorough": 1, "shards": 16, "thorough_only": True},
@@ -252,7 +252,7 @@ CHECKS["C18"] = {
     "pkg": "c18",
     "level": "exploration",
     "technique": "generated server scripts (delays, reordering, stream breaks, stray and repeated answers, unanswered ids, server stop / restart) x generated caller populations (time-outs, cancellations, priorities, forwarding, collapsed ResolveLock, concurrent CloseAddr) against the real RPCClient over loopback gRPC; oracle = round trip of a unique payload per call, exactly-once return, bounded return time",
-    "level_text": "Each generated case runs 1-48 goroutines x 1-6 calls against a scripted loopback server and checks every call's result against its own payload. Real sockets and wall-clock time: the interleavings inside the client are whatever the runtime produces, so a failure is reported with the script and call specs but may not replay deterministically; the thorough tier also runs under the race detector.",
+    "level_text": "Each generated case runs 1-48 goroutines x 1-6 calls against a scripted loopback server and checks every call's result against its own payload; the connection is closed concurrently (CloseAddr) in one case out of five and the whole client is shut down midway (Close, then CloseAddr) in another fifth. Real sockets and wall-clock time: the interleavings inside the client are whatever the runtime produces, so a failure is reported with the script and call specs but may not replay deterministically; the thorough tier also runs under the race detector.",
     "level_note": "Trusted: grpc-go, loopback networking. Exits inconclusive (2) if loopback is unavailable.",
     "tests": [
         {"name": "TestBatchMultiplexing", "quick": 250, "thorough": 600, "shards": 8, "timeout_q": 400, "timeout_t": 2400, "race": True},
